@@ -29,6 +29,21 @@ CHECKS = {
           "(also from a Bits source).",
           "The layout oracle (first field MSB, list element 0 LSB) is written from the property text and shares no code with bitstructs.py.",
           "DESIGN.md 3/C06"),
+  "C01": ("exploration",
+          "property-based testing (Hypothesis): generated RTL designs, differential simulation of every scheduling pass and forced linear extensions against an independent dataflow reference evaluator",
+          "Generated acyclic designs (hierarchy, slices, struct fields, nets, if/for/temporaries, registers) are simulated under the five "
+          "pass groups, seeded SimpleSchedule shuffles and forced linear extensions of the constraint order with permuted ff orders; all "
+          "signals are compared with the reference after every evaluation and tick and every block is re-run to check the fixed point.",
+          "Trusts vf/ref/rtl_eval.py as the definition of the dataflow semantics (self-checked for confluence per case); schedules are "
+          "sampled, exhaustive only in the sense recorded per case.",
+          "DESIGN.md 3/C01"),
+  "C07": ("exploration",
+          "property-based testing (Hypothesis): register-heavy generated designs simulated under all/sampled permutations of the update_ff order against a pre-edge next-state reference",
+          "Designs with 2-5 registers per component (Bits and struct typed), ff blocks reading each other's registers, conditional, repeated "
+          "and missing assignments and registers forwarded through nets are run under all k! ff orders for k<=4 (<=6 orders in quick) and under "
+          "all pass groups; every tick must equal the reference next-state function evaluated on pre-edge values.",
+          "Trusts vf/ref/rtl_eval.py:tick as the atomic-update semantics.",
+          "DESIGN.md 3/C07"),
 }
 
 NOT_YET = {}
